@@ -6,7 +6,7 @@ import os
 from . import common as C
 from .run import Check, Section
 
-NAMES = ["S", "S_B", "A_B", "x_1", "S_1", "T", "HG001", "HG001_B"]
+NAMES = ["S", "S_B", "A_B", "x_1", "S_1", "T", "HG001", "HG001_B", "T+N", "K(2)", "NA07.1", "NA07_1", "a|b", "x*"]  # prefix-related names and names holding regular-expression metacharacters
 POPS = ["YRI", "CEU", "AMR"]
 _dir = None
 
